@@ -6,16 +6,22 @@ Scenario = dict(seed, mod, script=[[cmd,...],...], ops=[op,...]) where
 All times in ticks (1/8), priorities in 1/16.
 """
 import random
+from collections import Counter
 from . import common
 from .common import TICK, PRIO, to_ticks
 
 FAMILY = 1
+NAME = 'env'
 STEP_LIMIT = 3000
 
 BUILTIN_PRIOS = [32, 48, 64, 80, 96, 112, 128, 144, 160, 176]
 
 
-class TooLong(Exception):
+class Discard(Exception):
+    pass
+
+
+class TooLong(Discard):
     pass
 
 
@@ -112,6 +118,17 @@ def enc_event(ev, paused):
     return out
 
 
+def observe(env, elog, op, st):
+    def evd(ev):
+        return dict(eid=ev._verif_eid, time=to_ticks(ev.time), prio=to_ticks(ev.event_type, PRIO),
+                    w=int(round(ev.random_weight * common.WDEN)), asset=ev.asset_id,
+                    act=getattr(ev.action, '_verif_act', -1), cancelled=bool(ev.cancelled),
+                    paused_at=None if ev.paused_at is None else to_ticks(ev.paused_at))
+    return dict(op=op, st=st, now=to_ticks(env.now), terminated=bool(env._terminated),
+                queue=[evd(e) for e in env._events], paused=[evd(e) for e in env._paused_events],
+                elog=list(elog))
+
+
 def snapshot(env, patch, elog):
     out = [to_ticks(env.now), 1 if env._terminated else 0, patch.n, len(env._events), len(env._paused_events)]
     for ev in env._events:
@@ -128,6 +145,7 @@ def run_impl(sc):
     """Drive the real Environment; returns the flat integer trace."""
     from simprocesd.model.simulation import Environment
     out = []
+    obs = []
     with common.WeightPatch(sc['seed'], sc['mod']) as patch:
         env = Environment()
         elog = []
@@ -186,19 +204,214 @@ def run_impl(sc):
             except IndexError:
                 st = 2
             out += [-777, st] + snapshot(env, patch, elog)
-    return out
+            obs.append(observe(env, elog, o, st))
+    return out, obs
 
 
-def nontrivial(sc, trace):
-    """C07 rule: a pause at a non-zero time followed later by an unpause of a still-pending event.
-    Approximated structurally: has pause and later unpause of the same asset, and some run/step between start and pause."""
-    seen_adv = False
-    paused = set()
-    for o in sc['ops']:
-        if o[0] in ('step', 'run'):
-            seen_adv = True
-        if o[0] == 'pause' and seen_adv:
-            paused.add(o[1])
-        if o[0] == 'unpause' and o[1] in paused:
-            return True
-    return False
+
+# ------------------------------------------------------------------ monitors (search aids; written from the property text)
+def _key(e):
+    return (e['time'], -e['prio'], e['w'], e['asset'])
+
+
+def monitor_c01(sc, obs):
+    v = []
+
+    def bad(sig, what):
+        v.append(dict(sig=sig, what=what))
+    prev = dict(now=0, queue=[], paused=[], elog=[], terminated=True)
+    gone = set()
+    for i, o in enumerate(obs):
+        q = o['queue']
+        for a, b in zip(q, q[1:]):
+            if _key(b) < _key(a):
+                bad('C01/order', 'op %d: pending events not in (time, priority, weight, id) order' % i)
+        if o['now'] < prev['now']:
+            bad('C01/clock-backwards', 'op %d (%s): clock went from %d to %d ticks' % (i, o['op'][0], prev['now'], o['now']))
+        for e in q:
+            if e['time'] < o['now']:
+                bad('C01/pending-in-past', 'op %d: pending event %d due at %d < now %d' % (i, e['eid'], e['time'], o['now']))
+        ts = [t for _, t in o['elog']]
+        if any(b < a for a, b in zip(ts, ts[1:])):
+            bad('C01/exec-order', 'op %d: actions executed out of time order' % i)
+        present = {e['eid'] for e in q} | {e['eid'] for e in o['paused']}
+        before = {e['eid'] for e in prev['queue']} | {e['eid'] for e in prev['paused']}
+        if present & gone:
+            bad('C01/twice', 'op %d: a dispatched event is pending again' % i)
+        gone |= (before - present)
+        k = o['op'][0]
+        if k == 'sched':
+            if o['op'][1] < prev['now']:
+                if o['st'] != 1 or [e['eid'] for e in q] != [e['eid'] for e in prev['queue']]:
+                    bad('C01/past-accepted', 'op %d: scheduling at %d < now %d was not rejected' % (i, o['op'][1], prev['now']))
+            elif o['st'] != 0:
+                bad('C01/future-rejected', 'op %d: scheduling at %d >= now %d was rejected' % (i, o['op'][1], prev['now']))
+        if k == 'step' and prev['queue'] and o['st'] in (0, 1):
+            h = min(prev['queue'], key=_key)
+            if h['eid'] in present:
+                bad('C01/not-minimum', 'op %d: step did not dispatch the minimal pending event %d' % (i, h['eid']))
+            if o['now'] != h['time']:
+                bad('C01/clock-not-event-time', 'op %d: clock %d differs from the dispatched event time %d' % (i, o['now'], h['time']))
+            new = o['elog'][len(prev['elog']):]
+            if h['cancelled'] and new:
+                bad('C01/cancelled-ran', 'op %d: a cancelled event ran its action' % i)
+            if not h['cancelled'] and h['act'] >= 0 and [a for a, _ in new] != [h['act']]:
+                bad('C01/at-most-once', 'op %d: dispatched action %d ran %d times' % (i, h['act'], len(new)))
+        if k == 'run' and o['st'] == 0 and o['op'][1] >= 0 and not any(e['act'] == -1 for e in prev['queue'] + prev['paused']):
+            t1 = prev['now'] + o['op'][1]
+            if o['now'] != t1:
+                bad('C01/run-end', 'op %d: run(%d) from %d ended at %d' % (i, o['op'][1], prev['now'], o['now']))
+            for e in q:
+                if not e['cancelled'] and e['time'] <= t1 and e['act'] != -1:
+                    bad('C01/run-left-due', 'op %d: live event %d due at %d <= %d not executed by the run' % (i, e['eid'], e['time'], t1))
+            for a, t in o['elog'][len(prev['elog']):]:
+                if t > t1:
+                    bad('C01/run-overran', 'op %d: run executed an event due at %d > %d' % (i, t, t1))
+        prev = o
+    return v
+
+
+class _Ref:
+    """Abstract spec of C07: every event is pending(time) / paused(remaining) / cancelled flag; independent of the queue layout."""
+
+    def __init__(self, sc):
+        self.sc, self.now, self.ev, self.n, self.log, self.term = sc, 0, {}, 0, [], True
+
+    def sched(self, t, prio, asset, act):
+        if t < self.now:
+            raise ValueError()
+        w = common.wgen(self.sc['seed'], self.sc['mod'], self.n)
+        self.ev[self.n] = dict(time=t, prio=prio, w=w, asset=asset, act=act, cancelled=False, remaining=None)
+        self.n += 1
+
+    def pause(self, a):
+        for e in self.ev.values():
+            if e['asset'] == a and e['remaining'] is None:
+                e['remaining'] = e['time'] - self.now
+
+    def unpause(self, a):
+        for e in self.ev.values():
+            if e['asset'] == a and e['remaining'] is not None:
+                e['time'] = self.now + e['remaining']
+                e['remaining'] = None
+
+    def cancel(self, a):
+        for e in self.ev.values():
+            if e['asset'] == a:
+                e['cancelled'] = True
+
+    def step(self):
+        pend = [(k, e) for k, e in self.ev.items() if e['remaining'] is None]
+        if not pend:
+            raise IndexError()
+        k, e = min(pend, key=lambda p: _key(p[1]))
+        del self.ev[k]
+        self.now = e['time']
+        if e['cancelled']:
+            return
+        if e['act'] == -1:
+            self.term = True
+            return
+        self.log.append((e['act'], self.now))
+        for c in (self.sc['script'][e['act']] if e['act'] < len(self.sc['script']) else []):
+            if c[0] == 'rel':
+                self.sched(self.now + c[1], c[2], c[3], c[4])
+            elif c[0] == 'abs':
+                self.sched(c[1], c[2], c[3], c[4])
+            else:
+                getattr(self, c[0])(c[1])
+
+    def run(self, d):
+        self.term = False
+        self.sched(self.now + d, 16, -1, -1)
+        n = 0
+        while any(e['remaining'] is None for e in self.ev.values()) and not self.term:
+            self.step()
+            n += 1
+            if n > STEP_LIMIT:
+                raise TooLong()
+
+
+def monitor_c07(sc, obs):
+    v = []
+    ref = _Ref(sc)
+    for i, o in enumerate(obs):
+        op = o['op']
+        try:
+            if op[0] == 'sched':
+                ref.sched(op[1], op[2], op[3], op[4])
+            elif op[0] in ('pause', 'unpause', 'cancel'):
+                getattr(ref, op[0])(op[1])
+            elif op[0] == 'step':
+                ref.step()
+            elif op[0] == 'run':
+                ref.run(op[1])
+        except (ValueError, IndexError):
+            pass
+        except TooLong:
+            return v
+        pend_ref = sorted((k, e['time'], e['cancelled']) for k, e in ref.ev.items() if e['remaining'] is None)
+        pend_imp = sorted((e['eid'], e['time'], e['cancelled']) for e in o['queue'])
+        paus_ref = sorted((k, e['remaining'], e['cancelled']) for k, e in ref.ev.items() if e['remaining'] is not None)
+        paus_imp = sorted((e['eid'], e['time'] - e['paused_at'], e['cancelled']) for e in o['paused'])
+        if pend_ref != pend_imp:
+            kind = op[0]
+            v.append(dict(sig='C07/pending-after-' + kind,
+                          what='op %d %s: pending events (id, time, cancelled) %s, specification says %s' % (i, op, pend_imp[:6], pend_ref[:6])))
+            return v
+        if paus_ref != paus_imp:
+            v.append(dict(sig='C07/paused-after-' + op[0],
+                          what='op %d %s: paused events (id, remaining delay, cancelled) %s, specification says %s' % (i, op, paus_imp[:6], paus_ref[:6])))
+            return v
+        if ref.log != o['elog']:
+            v.append(dict(sig='C07/executed-after-' + op[0],
+                          what='op %d %s: executed actions differ from the specification (a withheld or cancelled action ran, or a live one did not)' % (i, op)))
+            return v
+    return v
+
+
+MONITORS = {'C01': monitor_c01, 'C07': monitor_c07}
+
+
+def stats(sc, obs):
+    c = Counter()
+    for o in obs:
+        c['op:' + o['op'][0]] += 1
+        c['status:%d' % o['st']] += 1
+    c['scenarios'] += 1
+    c['executed_actions'] += len(obs[-1]['elog']) if obs else 0
+    c['max_queue'] = 0
+    return c
+
+
+def nontrivial(prop, sc, obs):
+    if prop == 'C07':
+        # a pause at a non-zero time that actually withheld an event, later resumed while still pending
+        withheld = set()
+        for o in obs:
+            if o['op'][0] == 'pause' and o['now'] > 0:
+                withheld |= {e['eid'] for e in o['paused'] if e['asset'] == o['op'][1] and e['paused_at'] == o['now']}
+            if o['op'][0] == 'unpause' and withheld & {e['eid'] for e in o['queue']}:
+                return True
+        return False
+    # C01: at least two events due at the same instant with different priorities were pending, and a run executed something
+    tie = any(len({e['prio'] for e in o['queue'] if e['time'] == t}) > 1
+              for o in obs for t in {e['time'] for e in o['queue']})
+    ran = any(o['op'][0] == 'run' and o['st'] == 0 for o in obs)
+    return tie and ran and len(obs[-1]['elog']) >= 3
+
+
+def shrink_candidates(sc):
+    ops = sc['ops']
+    for i in range(len(ops) - 1, -1, -1):
+        yield dict(sc, ops=ops[:i] + ops[i + 1:])
+    for i, cmds in enumerate(sc['script']):
+        for j in range(len(cmds)):
+            s2 = [list(c) for c in sc['script']]
+            s2[i] = cmds[:j] + cmds[j + 1:]
+            yield dict(sc, script=s2)
+
+
+def locate(sc, flat, pos):
+    n = flat[:pos + 1].count(-777) - 1
+    return 'op #%d %s' % (n, sc['ops'][n] if 0 <= n < len(sc['ops']) else '?')
